@@ -65,7 +65,7 @@ def main():
             if owner.get(i) != me or i not in H:
                 continue
             try:
-                r = H[i].compute()
+                r = H[i].compute(optimize_graph=(k % 2 == 0))
                 ok = bool(np.array_equal(np.asarray(r), S[i]))
                 out.append(dict(step=k, what=f"compute(h{i})", ok=ok, err="" if ok else "values differ from those fixed when the array was built"))
             except Exception as e:
